@@ -16,67 +16,271 @@ Open Scope Z_scope.
 Definition appended (r : bytes) (x : res bytes) : res bytes :=
   match x with Ok t => Ok (r ++ t) | Err e => Err e | Panic => Panic end.
 
+Ltac Zify.zify_post_hook ::= Z.to_euclidean_division_equations.
+
+(* ---- helpers ---- *)
+Lemma appended_bind {A} r (x : res A) (f : A -> res bytes) :
+  appended r (bind x f) = bind x (fun a => appended r (f a)).
+Proof. destruct x; reflexivity. Qed.
+
+(* the model reads `le_dec` of a slice: the same as le_at *)
+Lemma slice_le_dec {B} d p n (f : Z -> B) :
+  (do s <- slice d p n; Ok (f (le_dec s))) = (do v <- le_at d p n; Ok (f v)).
+Proof. unfold le_at. rewrite bind_assoc. reflexivity. Qed.
+
+(* binary.LittleEndian.Uint64(data[:8]) followed by any continuation *)
+Lemma rd_le8 {B} d (k : Z -> res B) :
+  (do s <- go_slice_to d 8; do v <- go_le s 8; k v) = (do v <- le_at d 0 8; k v).
+Proof. unfold go_slice_to. apply (go_slice_le_bind d 0 8 8 k 0); reflexivity. Qed.
+
+Lemma le2_u16 a b : 0 <= a < 256 -> 0 <= b < 256 ->
+  u16 (a + go_shl u16 b 8) = a + 256 * (b + 256 * 0).
+Proof.
+  intros Ha Hb. unfold go_shl. pow_consts.
+  rewrite (u16_small (b * 256)), u16_small by lia. lia.
+Qed.
+
+Lemma le4_u32 a b c e : 0 <= a < 256 -> 0 <= b < 256 -> 0 <= c < 256 -> 0 <= e < 256 ->
+  u32 (u32 (u32 (a + go_shl u32 b 8) + go_shl u32 c 16) + go_shl u32 e 24)
+  = a + 256 * (b + 256 * (c + 256 * (e + 256 * 0))).
+Proof.
+  intros Ha Hb Hc He. unfold go_shl. pow_consts.
+  rewrite (u32_small (b * 256)), (u32_small (c * 65536)), (u32_small (e * 16777216)) by lia.
+  rewrite (u32_small (a + b * 256)) by lia. rewrite (u32_small (a + b * 256 + c * 65536)) by lia.
+  rewrite u32_small by lia. lia.
+Qed.
+
+Lemma le8_u64 a0 a1 a2 a3 a4 a5 a6 a7 :
+  0 <= a0 < 256 -> 0 <= a1 < 256 -> 0 <= a2 < 256 -> 0 <= a3 < 256 ->
+  0 <= a4 < 256 -> 0 <= a5 < 256 -> 0 <= a6 < 256 -> 0 <= a7 < 256 ->
+  u64 (u64 (u64 (u64 (u64 (u64 (u64 (a0 + go_shl u64 a1 8) + go_shl u64 a2 16) + go_shl u64 a3 24) + go_shl u64 a4 32) +
+       go_shl u64 a5 40) + go_shl u64 a6 48) + go_shl u64 a7 56)
+  = a0 + 256 * (a1 + 256 * (a2 + 256 * (a3 + 256 * (a4 + 256 * (a5 + 256 * (a6 + 256 * (a7 + 256 * 0))))))).
+Proof.
+  intros H0 H1 H2 H3 H4 H5 H6 H7. unfold go_shl. pow_consts.
+  rewrite (u64_small (a1 * _)), (u64_small (a2 * _)), (u64_small (a3 * _)), (u64_small (a4 * _)),
+          (u64_small (a5 * _)), (u64_small (a6 * _)), (u64_small (a7 * _)) by lia.
+  rewrite (u64_small (a0 + _)) by lia.
+  rewrite (u64_small (a0 + _ + _)) by lia.
+  rewrite (u64_small (a0 + _ + _ + _)) by lia.
+  rewrite (u64_small (a0 + _ + _ + _ + _)) by lia.
+  rewrite (u64_small (a0 + _ + _ + _ + _ + _)) by lia.
+  rewrite (u64_small (a0 + _ + _ + _ + _ + _ + _)) by lia.
+  rewrite u64_small by lia. lia.
+Qed.
+
+(* string literals of the model as byte lists *)
+Ltac str_lits :=
+  repeat match goal with
+  | |- context [str ?s] => let v := eval vm_compute in (str s) in change (str s) with v
+  end.
+
+(* both sides are the same pieces, differently associated *)
+Ltac text_eq :=
+  cbn [app]; repeat (rewrite <- !app_assoc; cbn [app]); reflexivity.
+
+(* the reads at d[0], d[1], ...: as at_ *)
+Ltac idx_consts d :=
+  rewrite ?(go_idx_Z d 0 0), ?(go_idx_Z d 1 1), ?(go_idx_Z d 2 2), ?(go_idx_Z d 3 3), ?(go_idx_Z d 4 4),
+          ?(go_idx_Z d 5 5), ?(go_idx_Z d 6 6), ?(go_idx_Z d 7 7) by reflexivity.
+
+(* binary.LittleEndian.Uint64(data[:8]) in the generated code, data[0:8] in the model: the same eight bytes *)
+Lemma rd8_both d (k : Z -> res bytes) (g : bytes -> bytes) r :
+  wf_bytes d ->
+  (forall s, 0 <= le_dec s < 18446744073709551616 -> res_sim (k (le_dec s)) (Ok (r ++ g s))) ->
+  res_sim (do t <- go_slice_to d 8; do v <- go_le t 8; k v) (appended r (do s <- slice d 0 8; Ok (g s))).
+Proof.
+  intros W H. unfold go_slice_to. rewrite (go_slice_Z d 0 8 0 8) by reflexivity.
+  destruct (slice_cases d 0 8) as [(s & E & Ls & L)|[E L]]; rewrite E; cbn [bind appended]; [|exact I].
+  rewrite (go_le_exact s 8 Ls). cbn [bind]. apply H.
+  pose proof (le_dec_bound s (slice_wf _ _ _ _ W E)) as B. unfold len in B. rewrite Ls in B. exact B.
+Qed.
+
+(* ---- printJSONString: the size read by readVariableLength is an int (64 bit), the end of the slice pos+size wraps ---- *)
+Definition int_range (x : Z) : Prop := - 9223372036854775808 <= x < 9223372036854775808.
+
+Lemma int_range_div x : int_range x <-> (x / 2 ^ 63 = 0 \/ x / 2 ^ 63 = - 1).
+Proof. unfold int_range. change (2 ^ 63) with 9223372036854775808. lia. Qed.
+
+Lemma lor_int_range a b : int_range a -> int_range b -> int_range (Z.lor a b).
+Proof.
+  rewrite !int_range_div. rewrite <- !Z.shiftr_div_pow2 by lia. rewrite Z.shiftr_lor.
+  intros [-> | ->] [-> | ->]; cbn; auto.
+Qed.
+
+Lemma i64_int_range x : int_range (i64 x).
+Proof.
+  unfold int_range, i64, sx, u64. change (2 ^ (64 - 1)) with 9223372036854775808. change (2 ^ 64) with 18446744073709551616.
+  destruct (x mod 18446744073709551616 <? 9223372036854775808) eqn:E; lia.
+Qed.
+
+Lemma i64_wrap_high x : 9223372036854775808 <= x < 18446744073709551616 -> i64 x = x - 18446744073709551616.
+Proof.
+  intros H. unfold i64, sx, u64. change (2 ^ (64 - 1)) with 9223372036854775808. change (2 ^ 64) with 18446744073709551616.
+  destruct (x mod 18446744073709551616 <? 9223372036854775808) eqn:E; lia.
+Qed.
+
+Lemma read_varlen_go_bound l : forall acc idx pos v p,
+  read_varlen_go l acc idx pos = Ok (v, p) -> int_range acc -> int_range v /\ (p <= pos + length l)%nat.
+Proof.
+  induction l as [|bb l IH]; intros acc idx pos v p H Ha; cbn [read_varlen_go] in H; [discriminate|].
+  cbv zeta in H.
+  match type of H with context [Z.lor acc ?t] =>
+    assert (Hacc : int_range (Z.lor acc t))
+      by (apply lor_int_range; [exact Ha | destruct (_ <? 64); [apply i64_int_range | unfold int_range; lia]])
+  end.
+  destruct (0 <=? i8 bb).
+  - inversion H; subst. split; [exact Hacc | cbn [length]; lia].
+  - apply IH in H; [|exact Hacc]. destruct H as [Hv Hp]. split; [exact Hv | cbn [length]; lia].
+Qed.
+
+Lemma read_varlen_bound d v p : read_varlen d 0 = Ok (v, p) -> int_range v /\ (p <= length d)%nat.
+Proof.
+  unfold read_varlen. cbn [skipn]. intros H. apply read_varlen_go_bound in H; [exact H | unfold int_range; lia].
+Qed.
+
+(* data[pos:pos+size] with the wrapped sum against the guarded slice of the model *)
+Lemma go_slice_sliceZ d p sz : Z.of_nat (length d) < 2 ^ 62 -> (p <= length d)%nat -> int_range sz ->
+  go_slice d (Z.of_nat p) (i64 (Z.of_nat p + sz)) = sliceZ d (Z.of_nat p) sz.
+Proof.
+  intros Hd Hp Hs. change (2 ^ 62) with 4611686018427387904 in Hd. unfold int_range in Hs. unfold sliceZ, len.
+  destruct (Z_lt_le_dec (Z.of_nat p + sz) 9223372036854775808) as [Lt|Ge].
+  - rewrite i64_small by lia.
+    destruct (Z_lt_le_dec sz 0) as [N|NN].
+    + rewrite go_slice_bad by lia.
+      destruct ((0 <=? Z.of_nat p) && (0 <=? sz) && (Z.of_nat p + sz <=? Z.of_nat (length d))) eqn:C; [lia|reflexivity].
+    + rewrite (go_slice_Z d _ _ p (Z.to_nat sz)) by lia. rewrite Nat2Z.id.
+      destruct ((0 <=? Z.of_nat p) && (0 <=? sz) && (Z.of_nat p + sz <=? Z.of_nat (length d))) eqn:C; [reflexivity|].
+      apply slice_panic. lia.
+  - rewrite i64_wrap_high by lia. rewrite go_slice_bad by lia.
+    destruct ((0 <=? Z.of_nat p) && (0 <=? sz) && (Z.of_nat p + sz <=? Z.of_nat (length d))) eqn:C; [lia|reflexivity].
+Qed.
+
 Section Printers.
 Variable efmt : Z -> bytes.
 
 Theorem printJSONLiteral_equiv b top r :
   res_sim (printJSONLiteral_g b top r) (appended r (print_literal b top)).
 Proof.
-Admitted.
+  unfold printJSONLiteral_g, print_literal, q.
+  cbv [K_jsonNullLiteral K_jsonTrueLiteral K_jsonFalseLiteral].
+  destruct top; cbn [bind]; destruct (b =? 0); [|destruct (b =? 1); [|destruct (b =? 2)]| |destruct (b =? 1); [|destruct (b =? 2)]].
+  all: cbn [bind appended res_sim]; try exact I; str_lits; text_eq.
+Qed.
 
 (* the integer printers index data[0..n-1] (callers pass a slice of exactly n bytes) *)
 Theorem printJSONInt16_equiv d top r : wf_bytes d ->
   res_sim (printJSONInt16_g d top r) (appended r (do s <- slice d 0 2; Ok (print_int16 s top))).
 Proof.
-Admitted.
+  intros W. unfold printJSONInt16_g, print_int16.
+  rewrite (slice_le_dec d 0 2 (fun v => q top (fmt_d (i16 v)))). rewrite appended_bind.
+  idx_consts d. rewrite le_at_at_le0 by lia. cbn [at_le Nat.add].
+  repeat case_at W; try exact I; try lia.
+  rewrite le2_u16 by assumption.
+  destruct top; cbn [bind appended res_sim q]; text_eq.
+Qed.
 
 Theorem printJSONUint16_equiv d top r : wf_bytes d ->
   res_sim (printJSONUint16_g d top r) (appended r (do s <- slice d 0 2; Ok (print_uint16 s top))).
 Proof.
-Admitted.
+  intros W. unfold printJSONUint16_g, print_uint16.
+  rewrite (slice_le_dec d 0 2 (fun v => q top (fmt_d (u16 v)))). rewrite appended_bind.
+  idx_consts d. rewrite le_at_at_le0 by lia. cbn [at_le Nat.add].
+  repeat case_at W; try exact I; try lia.
+  rewrite le2_u16 by assumption.
+  destruct top; cbn [bind appended res_sim q]; rewrite u16_small by lia; text_eq.
+Qed.
 
 Theorem printJSONInt32_equiv d top r : wf_bytes d ->
   res_sim (printJSONInt32_g d top r) (appended r (do s <- slice d 0 4; Ok (print_int32 s top))).
 Proof.
-Admitted.
+  intros W. unfold printJSONInt32_g, print_int32.
+  rewrite (slice_le_dec d 0 4 (fun v => q top (fmt_d (i32 v)))). rewrite appended_bind.
+  idx_consts d. rewrite le_at_at_le0 by lia. cbn [at_le Nat.add].
+  repeat case_at W; try exact I; try lia.
+  rewrite le4_u32 by assumption.
+  destruct top; cbn [bind appended res_sim q]; text_eq.
+Qed.
 
 Theorem printJSONUint32_equiv d top r : wf_bytes d ->
   res_sim (printJSONUint32_g d top r) (appended r (do s <- slice d 0 4; Ok (print_uint32 s top))).
 Proof.
-Admitted.
+  intros W. unfold printJSONUint32_g, print_uint32.
+  rewrite (slice_le_dec d 0 4 (fun v => q top (fmt_d (u32 v)))). rewrite appended_bind.
+  idx_consts d. rewrite le_at_at_le0 by lia. cbn [at_le Nat.add].
+  repeat case_at W; try exact I; try lia.
+  rewrite le4_u32 by assumption.
+  destruct top; cbn [bind appended res_sim q]; rewrite u32_small by lia; text_eq.
+Qed.
 
 Theorem printJSONInt64_equiv d top r : wf_bytes d ->
   res_sim (printJSONInt64_g d top r) (appended r (do s <- slice d 0 8; Ok (print_int64 s top))).
 Proof.
-Admitted.
+  intros W. unfold printJSONInt64_g, print_int64.
+  rewrite (slice_le_dec d 0 8 (fun v => q top (fmt_d (i64 v)))). rewrite appended_bind.
+  idx_consts d. rewrite le_at_at_le0 by lia. cbn [at_le Nat.add].
+  repeat case_at W; try exact I; try lia.
+  rewrite le8_u64 by assumption.
+  destruct top; cbn [bind appended res_sim q]; text_eq.
+Qed.
 
 Theorem printJSONUint64_equiv d top r : wf_bytes d ->
   res_sim (printJSONUint64_g d top r) (appended r (do s <- slice d 0 8; Ok (print_uint64 s top))).
 Proof.
-Admitted.
+  intros W. unfold printJSONUint64_g. apply rd8_both; [exact W|]. intros s B.
+  unfold print_uint64. rewrite u64_small by exact B.
+  destruct top; cbn [bind res_sim q]; text_eq.
+Qed.
 
 Theorem printJSONDouble_equiv d top r : wf_bytes d ->
   res_sim (printJSONDouble_g efmt d top r) (appended r (do s <- slice d 0 8; Ok (print_double efmt s top))).
 Proof.
-Admitted.
+  intros W. unfold printJSONDouble_g. apply rd8_both; [exact W|]. intros s B.
+  unfold print_double. rewrite u64_small by exact B.
+  destruct top; cbn [bind res_sim q]; text_eq.
+Qed.
 
 Theorem printJSONString_equiv fuel d top r : wf_bytes d -> (length d < fuel)%nat -> Z.of_nat (length d) < 2 ^ 62 ->
   res_sim (printJSONString_g fuel d top r) (appended r (print_string d top)).
 Proof.
-Admitted.
+  intros W Hf Hd. unfold printJSONString_g, print_string.
+  pose proof (readVariableLength_equiv fuel d 0 Hd Hf) as R. change (Z.of_nat 0) with 0 in R.
+  destruct (readVariableLength_g fuel d 0) as [[sz p]| |]; destruct (read_varlen d 0) as [[sz' p']| |] eqn:E;
+    cbn [res_map res_sim] in R; try contradiction; cbn [bind appended res_sim]; try exact I.
+  unfold val_pos in R. cbn [fst snd] in R. inversion R; subst sz p. clear R.
+  destruct (read_varlen_bound d sz' p' E) as [Hs Hp].
+  rewrite !go_slice_sliceZ by assumption.
+  destruct top; destruct (sliceZ d (Z.of_nat p') sz') as [t| |]; cbn [bind appended res_sim]; try exact I.
+  all: str_lits; text_eq.
+Qed.
 
 Theorem printJSONDate_equiv d top r : wf_bytes d ->
   res_sim (printJSONDate_g d top r) (appended r (do b8 <- slice d 0 8; Ok (print_date b8 top))).
 Proof.
-Admitted.
+  intros W. unfold printJSONDate_g. apply rd8_both; [exact W|]. intros s B.
+  unfold print_date. rewrite u64_small by exact B. cbv zeta.
+  unfold band, shr, go_shr, cast_json, fmt_date.
+  destruct top; cbn [bind res_sim]; str_lits; text_eq.
+Qed.
 
 Theorem printJSONTime_equiv d top r : wf_bytes d ->
   res_sim (printJSONTime_g d top r) (appended r (do b8 <- slice d 0 8; Ok (print_time b8 top))).
 Proof.
-Admitted.
+  intros W. unfold printJSONTime_g. apply rd8_both; [exact W|]. intros s B.
+  unfold print_time. cbv zeta.
+  destruct (i64 (le_dec s) <? 0); cbn [bind].
+  all: unfold band, shr, go_shr, cast_json, fmt_clock.
+  all: match goal with |- context [?m =? 0] => destruct (m =? 0) end.
+  all: destruct top; cbn [bind negb res_sim]; str_lits; text_eq.
+Qed.
 
 Theorem printJSONDateTime_equiv d top r : wf_bytes d ->
   res_sim (printJSONDateTime_g d top r) (appended r (do b8 <- slice d 0 8; Ok (print_datetime b8 top))).
 Proof.
-Admitted.
+  intros W. unfold printJSONDateTime_g. apply rd8_both; [exact W|]. intros s B.
+  unfold print_datetime. rewrite u64_small by exact B. cbv zeta.
+  unfold band, shr, go_shr, cast_json, fmt_date, fmt_clock.
+  match goal with |- context [?m =? 0] => destruct (m =? 0) end.
+  all: destruct top; cbn [bind negb res_sim]; str_lits; text_eq.
+Qed.
 End Printers.
